@@ -127,6 +127,90 @@ theorem conditional_den_probability {pop : Option Var} {ch pa : List Var} {c : E
     rintro ⟨r0, hr0, hb⟩
     exact hnr ⟨r0, hr0, Var.base_eq_iff.mp hb⟩
 
+mutual
+/-- no `Sum` inside and no intervention subscript on any event variable: products / fractions of observational leaves -/
+def sumAndSubscriptFree : Expr → Bool
+  | .prob _ c p => (c ++ p).all (fun v => v.ivs.isEmpty)
+  | .prod fs => sumAndSubscriptFreeList fs
+  | .sum _ _ => false
+  | .frac n d => sumAndSubscriptFree n && sumAndSubscriptFree d
+  | .q _ _ => true
+  | .one => true
+  | .zero => true
+def sumAndSubscriptFreeList : List Expr → Bool
+  | [] => true
+  | e :: es => sumAndSubscriptFree e && sumAndSubscriptFreeList es
+end
+
+mutual
+theorem iterNames_eq_free : ∀ (e : Expr), sumAndSubscriptFree e = true →
+    ∀ x, x ∈ e.iterVars.map (·.name) ↔ x ∈ freeEventNames e
+  | .prob pop c p, h, x => by
+    simp only [sumAndSubscriptFree, List.all_eq_true, List.isEmpty_iff] at h
+    simp only [Expr.iterVars, freeEventNames, List.mem_map, List.mem_flatMap, Var.iterVars, List.mem_cons]
+    constructor
+    · rintro ⟨w, ⟨v, hv, hw⟩, rfl⟩
+      rcases hw with rfl | ⟨i, hi, rfl⟩
+      · exact ⟨w, hv, rfl⟩
+      · rw [h v hv] at hi; cases hi
+    · rintro ⟨v, hv, rfl⟩
+      exact ⟨v, ⟨v, hv, Or.inl rfl⟩, rfl⟩
+  | .prod fs, h, x => by
+    simp only [sumAndSubscriptFree] at h
+    simp only [Expr.iterVars, freeEventNames]
+    exact iterNamesList_eq_free fs h x
+  | .sum _ _, h, _ => by simp [sumAndSubscriptFree] at h
+  | .frac n d, h, x => by
+    simp only [sumAndSubscriptFree, Bool.and_eq_true] at h
+    simp only [Expr.iterVars, freeEventNames, List.map_append, List.mem_append]
+    rw [iterNames_eq_free n h.1 x, iterNames_eq_free d h.2 x]
+  | .q d c, _, x => by simp [Expr.iterVars, freeEventNames]
+  | .one, _, x => by simp [Expr.iterVars, freeEventNames]
+  | .zero, _, x => by simp [Expr.iterVars, freeEventNames]
+theorem iterNamesList_eq_free : ∀ (fs : List Expr), sumAndSubscriptFreeList fs = true →
+    ∀ x, x ∈ (Expr.iterVarsList fs).map (·.name) ↔ x ∈ freeEventNamesList fs
+  | [], _, x => by simp [Expr.iterVarsList, freeEventNamesList]
+  | e :: es, h, x => by
+    simp only [sumAndSubscriptFreeList, Bool.and_eq_true] at h
+    simp only [Expr.iterVarsList, freeEventNamesList, List.map_append, List.mem_append]
+    rw [iterNames_eq_free e h.1 x, iterNamesList_eq_free es h.2 x]
+end
+
+/-- **`Expression.conditional` meets the specification on expressions without `Sum` and without intervention subscripts**
+(products and fractions of observational leaves, any nesting): there the variables the code collects are exactly the free
+event variables, so `e.conditional(ranges)` denotes `e / Σ_{free(e) ∖ ranges} e`.  Together with
+`conditional_den_probability` (single leaves, subscripts allowed) this delimits finding F11 from below: the deviation needs
+a bound `Sum` range or a subscript outside a single `Probability`. -/
+theorem conditional_den_spec_observational (e c : Expr) (r : List Var) (hfree : sumAndSubscriptFree e = true)
+    (hnl : ∀ pop ch pa, e ≠ .prob pop ch pa) (h : e.conditional r = .ok c) (σ : Val)
+    (xs : List Name) (hxs : xs.Nodup) (hmem : ∀ x, x ∈ xs ↔ x ∈ freeEventNames e ∧ x ∉ r.map (·.name)) :
+    den env σ' c σ = den env σ' e σ / sumVars env.card xs (fun τ => den env σ' e τ) σ := by
+  apply conditional_den_spec_partial e c r h σ xs hxs hmem
+  intro x
+  have hcc : e.conditionalComplement r =
+      diff' (dedup' (e.iterVars.map Var.base)) (upgradeOrdering (r.map Var.base)) := by
+    unfold Expr.conditionalComplement
+    cases e with
+    | prob pop ch pa => exact absurd rfl (hnl pop ch pa)
+    | _ => rfl
+  rw [hcc, ← iterNames_eq_free e hfree x]
+  simp only [List.mem_map, mem_diff', mem_dedup', mem_upgradeOrdering]
+  constructor
+  · rintro ⟨w, ⟨⟨v, hv, rfl⟩, hnr⟩, rfl⟩
+    refine ⟨⟨v, hv, rfl⟩, ?_⟩
+    rintro ⟨r0, hr0, hn⟩
+    exact hnr ⟨r0, hr0, Var.base_eq_iff.mpr hn⟩
+  · rintro ⟨⟨v, hv, rfl⟩, hnr⟩
+    refine ⟨v.base, ⟨⟨v, hv, rfl⟩, ?_⟩, rfl⟩
+    rintro ⟨r0, hr0, hb⟩
+    exact hnr ⟨r0, hr0, Var.base_eq_iff.mp hb⟩
+
+/-- non-vacuity: `(P(A|B) * P(B)) / P(C)` is Sum- and subscript-free, and `conditional` succeeds on it -/
+example : sumAndSubscriptFree (.frac (.prod [.prob none [Var.plain 0] [Var.plain 1], .prob none [Var.plain 1] []])
+      (.prob none [Var.plain 2] [])) = true ∧
+    ∃ c, (Expr.frac (.prod [.prob none [Var.plain 0] [Var.plain 1], .prob none [Var.plain 1] []])
+      (.prob none [Var.plain 2] [])).conditional [Var.plain 1] = .ok c := ⟨by decide, _, rfl⟩
+
 /-- F11 exhibited on the model: for `Sum[A](P(C))` (A=0, C=2) the code also normalises over the bound `A` -/
 theorem conditional_collects_bound_range :
     ((Expr.sum (.prob none [Var.plain 2] []) [Var.plain 0]).conditionalComplement []).map (·.name) = [2, 0] ∧
